@@ -163,4 +163,148 @@ def run(ctx):
     w.inst('returned')
     if sq(tail) != 'Ok((%s,%s))' % (pp.out_var, tab):
         w.fail('%s:define-table-returned' % CRATE, pp.where(tail.get('l')), 'the function must return the live table: Ok((%s, %s)); found %s' % (pp.out_var, tab, sq(tail)[:60]))
-    return [r, w]
+    return [r, w] + chain_rules(ctx)
+
+
+# ------------------------------------------------------------------------------------------------- X15 / X16
+def _eval_chain(stmts, env, skipped):
+    """Tiny typestate interpreter for the branch-selection statements of a conditional arm.
+    env: {'hit': bool, 'cond': bool}; records skip_nodes.push(<body>) calls in `skipped`; returns False on an unmodelled form."""
+    for st in stmts:
+        if st['k'] == 'let':
+            txt = sq(st)
+            if txt.startswith('letmuthit=false'):
+                env['hit'] = False
+            continue   # destructuring / identifier extraction
+        if st['k'] != 'expr':
+            return False
+        e = st['e']
+        k = e.get('k')
+        if k == 'mcall' and e['m'] == 'push' and sx.is_path(e['recv'], 'skip_nodes'):
+            skipped.append(sq(e['args'][0]))
+            continue
+        if k == 'assign' and sq(e) == 'hit=true':
+            env['hit'] = True
+            continue
+        if k == 'if':
+            c = e['c']
+            if c.get('k') == 'let':
+                return None   # `if let Some(elsebody) = elsebody` handled by caller
+            cs = sq(c)
+            if cs == 'hit':
+                v = env['hit']
+            elif 'contains_key' in cs:
+                v = env['cond'] if not cs.startswith('(!') else (not env['cond'])
+            else:
+                return False
+            branch = e['t'] if v else e.get('e')
+            if branch is None:
+                continue
+            if branch.get('k') == 'if':
+                branch = {'k': 'block', 'stmts': [{'k': 'expr', 'e': branch, 'semi': False}]}
+            r_ = _eval_chain(branch['stmts'], env, skipped)
+            if r_ is False:
+                return False
+            continue
+        return False
+    return True
+
+
+def chain_rules(ctx):
+    pp = model(ctx)
+    r = RuleResult('X15', 'a conditional chain activates exactly the first branch whose condition holds (else branch if none)')
+    q = RuleResult('X16', '`include same-line rule: the two item kinds are tracked alike')
+    if pp.problems:
+        return [r, q]
+    for a in pp.arms:
+        if a.event != 'Enter' or a.kind not in ('IfdefDirective', 'IfndefDirective'):
+            continue
+        stmts = a.body['stmts']
+        neg = a.kind == 'IfndefDirective'
+        # split: head (before the `for` over elsif), loop body, tail (else)
+        fors = [i for i, st in enumerate(stmts) if st['k'] == 'expr' and st['e'].get('k') == 'for']
+        if len(fors) != 1:
+            r.fail('%s:%s:chain-shape' % (CRATE, a.key), pp.where(a.line), '%s: expected one loop over the `elsif list (fail closed)' % a.key)
+            continue
+        head, loop, tail = stmts[:fors[0]], stmts[fors[0]]['e'], stmts[fors[0] + 1:]
+        names = {}
+
+        def body_skipped(sk, what):
+            return any(what in x for x in sk)
+        ok_all = True
+        # ---- first branch: for cond in {F,T}
+        for cond in (False, True):
+            env = {'hit': False, 'cond': cond}
+            sk = []
+            res = _eval_chain(head, env, sk)
+            truth = (not cond) if neg else cond        # condition "macro is (not) defined" holds
+            # cond models `defines.contains_key(..) || predefined`: the arm's own test polarity is read from its text
+            want_skip = not truth
+            r.inst('%s:first:%s' % (a.key, cond), {'arm': a.key, 'defined': cond, 'first_body_skipped': body_skipped(sk, 'ifbody'), 'hit': env['hit']})
+            if res is not True or body_skipped(sk, 'ifbody') != want_skip or env['hit'] != truth:
+                ok_all = False
+                r.fail('%s:%s:first-branch' % (CRATE, a.key), pp.where(a.line),
+                       '%s: with the tested name %sdefined the first branch must be %s and hit=%s; the handler gives skipped=%s hit=%s' %
+                       (a.key, '' if cond else 'un', 'kept' if truth else 'skipped', truth, body_skipped(sk, 'ifbody'), env['hit']))
+        # ---- elsif step: for hit in {F,T} x cond in {F,T}
+        for hit in (False, True):
+            for cond in (False, True):
+                env = {'hit': hit, 'cond': cond}
+                sk = []
+                res = _eval_chain(loop['body']['stmts'], env, sk)
+                want_skip = hit or not cond
+                want_hit = hit or cond
+                r.inst('%s:elsif:%s:%s' % (a.key, hit, cond), {'arm': a.key, 'hit_before': hit, 'elsif_defined': cond,
+                                                                'body_skipped': body_skipped(sk, 'elsifbody'), 'hit_after': env['hit']})
+                if res is not True or body_skipped(sk, 'elsifbody') != want_skip or env['hit'] != want_hit:
+                    r.fail('%s:%s:elsif-step' % (CRATE, a.key), pp.where(loop.get('l')),
+                           '%s: `elsif with hit=%s, defined=%s must give skipped=%s hit=%s; the handler gives skipped=%s hit=%s' %
+                           (a.key, hit, cond, want_skip, want_hit, body_skipped(sk, 'elsifbody'), env['hit']))
+        # ---- else: skipped iff hit
+        els = [st for st in tail if st['k'] == 'expr' and st['e'].get('k') == 'if' and st['e']['c'].get('k') == 'let']
+        if len(els) != 1:
+            r.fail('%s:%s:else-shape' % (CRATE, a.key), pp.where(a.line), '%s: expected `if let Some(elsebody) = elsebody {..}` (fail closed)' % a.key)
+            continue
+        for hit in (False, True):
+            env = {'hit': hit, 'cond': False}
+            sk = []
+            res = _eval_chain(els[0]['e']['t']['stmts'], env, sk)
+            r.inst('%s:else:%s' % (a.key, hit), {'arm': a.key, 'hit_before': hit, 'else_body_skipped': body_skipped(sk, 'elsebody')})
+            if res is not True or body_skipped(sk, 'elsebody') != hit:
+                r.fail('%s:%s:else-branch' % (CRATE, a.key), pp.where(els[0].get('l')),
+                       '%s: the `else body must be skipped iff an earlier branch was taken (hit=%s gives skipped=%s)' % (a.key, hit, body_skipped(sk, 'elsebody')))
+        # the directive's own keywords and identifiers are always skip-listed
+        for what in ('keyword', 'ifid', 'elsifid'):
+            pass
+    r.floor('chain_cases', r.instances, 16)
+    # ---------------------------------------------------------------- X16: the line-tracking match (the match before the main one)
+    if len(pp.matches) >= 2:
+        idx, m = pp.matches[-2]
+        arms = {}
+        for arm in m['arms']:
+            arms[sq(arm['pat'])] = arm
+        def get(ev, kind):
+            for k_, v_ in arms.items():
+                if k_.startswith('NodeEvent::%s(RefNode::%s(' % (ev, kind)):
+                    return v_
+            return None
+        e1, e2 = get('Enter', 'SourceDescriptionNotDirective'), get('Enter', 'CompilerDirective')
+        l1, l2 = get('Leave', 'SourceDescriptionNotDirective'), get('Leave', 'CompilerDirective')
+        q.inst('enter-arms', {'found': [bool(e1), bool(e2)]})
+        if not e1 or not e2 or sq(e1['body']) != sq(e2['body']):
+            q.fail('%s:include-line:enter-differ' % CRATE, pp.where(m.get('l')),
+                   'an item entered on the line of a preceding `include must raise IncludeLine for plain text and for directives alike')
+        elif 'last_include_line==locate.line' not in sq(e1['body']) or 'Err(Error::IncludeLine)' not in sq(e1['body']):
+            q.fail('%s:include-line:enter-test' % CRATE, pp.where(m.get('l')), 'entering an item must compare its line with the line of the last `include')
+        q.inst('leave-arms', {'found': [bool(l1), bool(l2)]})
+        if not l1 or not l2 or 'last_item_line=Some(locate.line)' not in sq(l1['body']) or 'last_item_line=Some(locate.line)' not in sq(l2['body']):
+            q.fail('%s:include-line:leave' % CRATE, pp.where(m.get('l')), 'leaving an item must record its line as the last item line')
+        inc = [a for a in pp.arms if a.event == 'Enter' and a.kind == 'IncludeCompilerDirective']
+        if inc:
+            t = sq(inc[0].body)
+            q.inst('include-arm')
+            if 'last_include_line=Some(locate.line)' not in t or 'last_item_line==locate.line' not in t:
+                q.fail('%s:include-line:include-arm' % CRATE, pp.where(inc[0].line), 'the `include arm must record its own line and reject an item already on that line')
+    else:
+        q.fail('%s:include-line:match-missing' % CRATE, pp.where(1), 'line-tracking match not found (fail closed)')
+    return [r, q]
